@@ -78,7 +78,28 @@ func objFull(fn *types.Func) string {
 }
 
 func callIs(c ssa.CallInstruction, pkgPath, name string) bool {
-	return objIs(calleeObj(c), pkgPath, name)
+	if objIs(calleeObj(c), pkgPath, name) {
+		return true
+	}
+	// "Type.Method" reached through an interface of the same package that Type
+	// implements (the object handed in as an interface)
+	cc := c.Common()
+	if !cc.IsInvoke() || cc.Method == nil || cc.Method.Pkg() == nil || cc.Method.Pkg().Path() != pkgPath {
+		return false
+	}
+	dot := strings.Index(name, ".")
+	if dot < 0 || name[dot+1:] != cc.Method.Name() {
+		return false
+	}
+	tn, ok := cc.Method.Pkg().Scope().Lookup(name[:dot]).(*types.TypeName)
+	if !ok {
+		return false
+	}
+	iface, ok := cc.Value.Type().Underlying().(*types.Interface)
+	if !ok {
+		return false
+	}
+	return types.Implements(tn.Type(), iface) || types.Implements(types.NewPointer(tn.Type()), iface)
 }
 
 // ---- iteration ----------------------------------------------------------------
@@ -718,4 +739,34 @@ func funcValueOperands(ins ssa.Instruction) []*ssa.Function {
 func retVal(ret *ssa.Return, i int) ssa.Value {
 	vals, _ := returnValues(ret)
 	return vals[i]
+}
+
+// reachesCall: f, one of its closures, or a function of package pkg it reaches
+// through at most depth static calls contains a call that pred accepts.
+func reachesCall(f *ssa.Function, pkg string, depth int, pred func(ssa.CallInstruction) bool) bool {
+	seen := map[*ssa.Function]bool{}
+	var visit func(g *ssa.Function, d int) bool
+	visit = func(g *ssa.Function, d int) bool {
+		if seen[g] || len(g.Blocks) == 0 {
+			return false
+		}
+		seen[g] = true
+		found := false
+		for _, h := range withClosures(g) {
+			eachCall(h, func(cl ssa.CallInstruction) {
+				if found {
+					return
+				}
+				if pred(cl) {
+					found = true
+					return
+				}
+				if sc := staticCallee(cl); sc != nil && d < depth && fnPkgPath(sc) == pkg && visit(sc, d+1) {
+					found = true
+				}
+			})
+		}
+		return found
+	}
+	return visit(f, 0)
 }
